@@ -146,8 +146,8 @@ func evalTree(t *Tree, o horder) (Shares, error) {
 		}
 	}
 	ci.Nodes["n1"] = &node_info.NodeInfo{
-		Name: "n1",
-		Node: &v1.Node{Status: v1.NodeStatus{Conditions: []v1.NodeCondition{{Type: v1.NodeReady, Status: v1.ConditionTrue}}}},
+		Name:        "n1",
+		Node:        &v1.Node{Status: v1.NodeStatus{Conditions: []v1.NodeCondition{{Type: v1.NodeReady, Status: v1.ConditionTrue}}}},
 		Allocatable: resource_info.NewResource(t.Total*resScale[1], t.Total*resScale[2], t.Total),
 		PodInfos:    map[common_info.PodID]*pod_info.PodInfo{},
 	}
